@@ -37,7 +37,7 @@ TIMEOUT_MS = 20000          # per fresh execution; the replay process ends itsel
 LIMITS = [{"loop": 20000, "rec": 200}, {"loop": 50, "rec": 12}, {"loop": 3, "rec": 3, "stack": 64}, {"loop": 1000, "rec": 40, "stack": 512}]
 
 PROBES = [
-    "new Array(-1)", "'x'.repeat(2**28)", "'x'.padStart(2**31)", "new ArrayBuffer(2**53)",
+    "new Array(-1)", "'x'.repeat(2**28)", "new ArrayBuffer(2**53)",
     "new Uint8Array(2**40)", 
     "var a = []; a.length = 2**32 - 1; a.push(1)", "var a = [1,2,3]; a.length = 2**32", 
     "JSON.parse('['.repeat(5000))", "JSON.parse('[' + '1,'.repeat(10) + '1]'.repeat(1))", "JSON.stringify({get a(){ throw 1 }})",
@@ -58,7 +58,6 @@ PROBES = [
     "[1,2,3].copyWithin(NaN, -Infinity, Infinity)", "[3,2,1].sort(function(){ throw 1 })", "[1,2].sort(1)",
     "[1,2,3].flat(Infinity)", "var a = [1]; a.flatMap(function(){ a.push(1); return a })", "new Array(5).fill().map(function(x, i){ return i })",
     "new Map([1])", "new Set(1)", "new WeakMap([[1, 2]])", "new WeakRef(1)", "new FinalizationRegistry(1)", "new WeakSet().add(Symbol.for('x'))",
-    "var m = new Map(); m.set(m, m); m.forEach(function(v, k, mm){ mm.delete(k); mm.set(1, 1) })",
     "var s = new Set([1,2,3]); for (var x of s) { s.delete(x); s.add(x + 3); if (x > 20) break }",
     "new Int8Array(3).set([1,2,3,4])", "new Int8Array(new ArrayBuffer(8), 1, 8)", "new Float64Array(new ArrayBuffer(9))", "new DataView(new ArrayBuffer(1)).getInt32(0)",
     "var b = new ArrayBuffer(8, {maxByteLength: 16}); var t = new Uint8Array(b); b.resize(0); t[0]; t.fill(1); b.resize(16); t.length",
